@@ -90,9 +90,10 @@ theorem tcgame_base_set :
 
 /-! ## output files -/
 
-/-- **A derived output name never equals the input name.** -/
-theorem derived_ne_input (f : OutFmt) (input out : String) (h : deriveOutputFilename f input = .ok out) :
-    out ≠ input := by
+/-- **A derived output name never equals the name of an input file** - the first, from which it is derived, or any other
+    (finding F71, repaired). -/
+theorem derived_not_an_input (f : OutFmt) (inputs : List String) (out : String) (h : deriveOutputFilename f inputs = .ok out) :
+    out ∉ inputs := by
   unfold deriveOutputFilename at h
   simp only at h
   split at h
@@ -101,6 +102,25 @@ theorem derived_ne_input (f : OutFmt) (input out : String) (h : deriveOutputFile
     simp only [Except.ok.injEq] at h
     subst h
     simpa using hne
+
+theorem derived_ne_input (f : OutFmt) (inputs : List String) (out : String) (h : deriveOutputFilename f inputs = .ok out)
+    (hi : inputs ≠ []) : out ≠ inputs.getD 0 "" := by
+  intro he
+  apply derived_not_an_input f inputs out h
+  rw [he]
+  cases inputs with
+  | nil => exact absurd rfl hi
+  | cons a t => simp
+
+/-- **when only the help or version text is asked for, no output name is derived, so none can fail to be** (finding F78,
+    repaired): the groups are finished without an error -/
+theorem info_only_derives_nothing (inputs : List String) (gs acc : List OutGroup) :
+    ∃ r, finishGroups inputs true gs acc = .ok r := by
+  induction gs generalizing acc with
+  | nil => exact ⟨acc, rfl⟩
+  | cons g rest ih =>
+    simp only [finishGroups, Bool.not_true, Bool.and_false, Bool.false_eq_true, if_false]
+    exact ih _
 
 /-- extensions: `bin` for raw binary, `mlb` for the Mesen format, `txt` for everything else -/
 theorem extension_table :
@@ -161,10 +181,10 @@ theorem one_file_per_group (bits : Bits) (spans : List Span) (g : OutGroup) (f :
     (writeOf bits spans g).length = 1 ∧ (writeOf bits spans g).map (·.1) = [name] := by
   simp [writeOf, hf, hp, ho]
 
-/-- after `finishGroups` every non-printing group has a file name whenever there is an input -/
+/-- after `finishGroups` every non-printing group has a file name whenever there is an input (and an assembly was asked for) -/
 theorem finish_names (inputs : List String) (gs acc out : List OutGroup) (hi : 1 ≤ inputs.length)
     (hacc : ∀ g ∈ acc, g.printout = false → g.outFile.isSome = true)
-    (h : finishGroups inputs gs acc = .ok out) : ∀ g ∈ out, g.printout = false → g.outFile.isSome = true := by
+    (h : finishGroups inputs false gs acc = .ok out) : ∀ g ∈ out, g.printout = false → g.outFile.isSome = true := by
   induction gs generalizing acc with
   | nil => simp only [finishGroups, Except.ok.injEq] at h; subst h; exact hacc
   | cons g rest ih =>
@@ -186,7 +206,7 @@ theorem finish_names (inputs : List String) (gs acc out : List OutGroup) (hi : 1
       · exact hacc x hx hp
       · simp only [List.mem_singleton] at hx; subst hx
         simp only at hp ⊢
-        simp only [Bool.and_eq_true, Bool.not_eq_true', decide_eq_true_eq, not_and] at hc
+        simp only [Bool.not_false, Bool.and_true, Bool.and_eq_true, Bool.not_eq_true', decide_eq_true_eq, not_and] at hc
         cases ho : g.outFile with
         | some _ => rfl
         | none =>
